@@ -267,3 +267,14 @@ Example switch_empty_bodies_agree :
   forallb (wf_supported true) t_switch_empty_cases = true /\
   mout t_switch_empty_cases c_x1 = Some (B "||", None) /\ rout t_switch_empty_cases c_x1 = (B "||", SNone).
 Proof. vm_compute. repeat split. Qed.
+
+(* a void source (nil, or an empty string / byte value) assigns nothing: the ok flag is false and
+   the target keeps its old value, on both sides *)
+Definition c_void := ctx_set (B "s") (VStr []) false ctx_new.
+Definition t_void_source :=
+  [ACtx (B "x") (B "pre") [] true []; ACtx (B "x") (B "s") (B "ok") false [];
+   APrint [] (B "x") [] [] [] false; APrint [] (B "ok") [] [] [] false].
+Example void_source_assigns_nothing :
+  forallb (wf_supported true) t_void_source = true /\
+  mout t_void_source c_void = Some (B "prefalse", None) /\ rout t_void_source c_void = (B "prefalse", SNone).
+Proof. vm_compute. repeat split. Qed.
